@@ -11,6 +11,7 @@ import (
 	"net"
 	"os"
 	"path/filepath"
+	"strconv"
 	"strings"
 	"testing"
 	"time"
@@ -119,6 +120,11 @@ func c09Gen(r *Rand, tier string, i int) Scenario {
 			switch r.Intn(8) {
 			case 0:
 				f.Lines = append(f.Lines, C09Line{Kind: "comment", Comment: PickOf(r, "# a comment", "#", "# ssh-ed25519 AAAA not a key", "#key of bob")})
+				if r.Bool(0.4) {
+					// a key revoked by commenting its line out: the full key text is in
+					// the file, but not as an entry
+					f.Lines = append(f.Lines, C09Line{Kind: "comment", Comment: PickOf(r, "#", "# ", "#revoked: ") + fmt.Sprintf("{{key:%d}}", r.Intn(c09PoolSize)) + PickOf(r, "", " old laptop")})
+				}
 				if r.Bool(0.15) {
 					// a big file (shared account, generated file): more than 32 KiB / 64 KiB of
 					// comment lines in front of the remaining keys
@@ -137,7 +143,7 @@ func c09Gen(r *Rand, tier string, i int) Scenario {
 			default:
 				f.Lines = append(f.Lines, C09Line{Kind: "key", Key: r.Intn(c09PoolSize),
 					Options: PickOf(r, "", "", "", "no-pty", "from=\"10.0.1.*\"", "command=\"echo hello world\",no-port-forwarding", "environment=\"A=b c\""),
-					Comment: PickOf(r, "", "user@host", "a comment with spaces", "#hash")})
+					Comment: PickOf(r, "", "user@host", "a comment with spaces", "#hash", fmt.Sprintf("replaces {{key:%d}}", r.Intn(c09PoolSize)))})
 			}
 		}
 		sc.Files = append(sc.Files, f)
@@ -224,6 +230,22 @@ func c09Gen(r *Rand, tier string, i int) Scenario {
 	return sc
 }
 
+// c09KeyText expands {{key:N}} into the text (type and base64) of pool key N.
+func c09KeyText(s string) string {
+	for {
+		i := strings.Index(s, "{{key:")
+		if i < 0 {
+			return s
+		}
+		j := strings.Index(s[i:], "}}")
+		if j < 0 {
+			return s
+		}
+		n, _ := strconv.Atoi(s[i+6 : i+j])
+		s = s[:i] + strings.TrimSpace(string(poolKey(n).PubLine)) + s[i+j+2:]
+	}
+}
+
 func (f *C09File) render() []byte {
 	nl := "\n"
 	if f.CRLF {
@@ -238,11 +260,11 @@ func (f *C09File) render() []byte {
 				line = l.Options + " " + line
 			}
 			if l.Comment != "" {
-				line += " " + l.Comment
+				line += " " + c09KeyText(l.Comment)
 			}
 			b.WriteString(line)
 		default:
-			b.WriteString(l.Comment)
+			b.WriteString(c09KeyText(l.Comment))
 		}
 		if i < len(f.Lines)-1 || f.FinalNewline {
 			b.WriteString(nl)
